@@ -665,7 +665,7 @@ type c19gp struct {
 }
 
 func c19gather(c *runCtx) (int, []c19gp) {
-	host, srflx := CandidateTypeHost, CandidateTypeServerReflexive
+	host, srflx, relay := CandidateTypeHost, CandidateTypeServerReflexive, CandidateTypeRelay
 	pool := []AddressRewriteRule{
 		{External: []string{"203.0.113.5"}, AsCandidateType: host},
 		{External: []string{"203.0.113.5"}, AsCandidateType: host, Mode: AddressRewriteAppend},
@@ -677,6 +677,10 @@ func c19gather(c *runCtx) (int, []c19gp) {
 		{External: []string{"203.0.113.9"}, Local: "10.0.0.1", AsCandidateType: host, Mode: AddressRewriteAppend},
 		{External: []string{"203.0.113.20"}, AsCandidateType: srflx},
 		{External: []string{"203.0.113.21", "203.0.113.22"}, Iface: "eth1", AsCandidateType: srflx, Mode: AddressRewriteAppend},
+		{External: []string{"203.0.113.30", "203.0.113.31"}, AsCandidateType: relay},
+		{External: []string{"203.0.113.32"}, AsCandidateType: relay, Mode: AddressRewriteReplace},
+		{External: nil, AsCandidateType: relay, Mode: AddressRewriteReplace},
+		{External: []string{"203.0.113.33"}, Iface: "eth0", AsCandidateType: relay, Mode: AddressRewriteReplace},
 	}
 	var lists [][]AddressRewriteRule
 	lists = append(lists, nil)
@@ -704,9 +708,18 @@ func c19gather(c *runCtx) (int, []c19gp) {
 		jb := jobs[idx]
 		var msgs []string
 		inBubble(c.t, func() {
-			cfg := gatherCfg{Ifaces: two, NetTypes: []string{"udp4"}, CandTypes: []string{"host", "srflx"}, UDPMux: jb.mux}
+			cfg := gatherCfg{Ifaces: two, NetTypes: []string{"udp4"}, CandTypes: []string{"host", "srflx", "relay"}, URLs: []string{"turn:198.51.100.1:3478?transport=udp"}, UDPMux: jb.mux}
 			raw, _ := json.Marshal(cfg)
 			gw := newGatherWorld(raw)
+			defer func() { // resources are C09's subject (its relay rewrite configurations): a TURN client left open is wound up here
+				for _, t := range gw.turns {
+					select {
+					case <-t.done:
+					default:
+						t.Close()
+					}
+				}
+			}()
 			defer gw.Close()
 			// rules without externals are refused by the public option: compile and install directly (as part 1 does)
 			m, err := newAddressRewriteMapper(jb.rules)
@@ -718,6 +731,10 @@ func c19gather(c *runCtx) (int, []c19gp) {
 				msgs = append(msgs, "GatherCandidates: "+err.Error())
 
 				return
+			}
+			quiesce()
+			for _, t := range gw.turns { // every allocation succeeds
+				t.reply <- "ok"
 			}
 			quiesce()
 			for i := 0; i < 10; i++ {
@@ -774,6 +791,27 @@ func c19gather(c *runCtx) (int, []c19gp) {
 					}
 				}
 			}
+			// the relayed address is looked up under the local address of the socket that talks to the TURN server (a
+			// wildcard socket here, so no interface); the candidate keeps the relayed port
+			wantRelay := map[string]int{}
+			const relayed = "198.51.100.7"
+			{
+				ips, matched, mode := lookup(relay, "0.0.0.0", "")
+				switch {
+				case m == nil || !m.hasCandidateType(relay) || !matched:
+					wantRelay[relayed] = 1
+				case mode == AddressRewriteReplace:
+					for _, e := range ips {
+						wantRelay[e] = 1
+					}
+				default:
+					wantRelay[relayed] = 1
+					for _, e := range ips {
+						wantRelay[e] = 1
+					}
+				}
+			}
+			gotRelay := map[string]int{}
 			gotHost, gotSrflx := map[string]int{}, map[string]int{}
 			for _, line := range gw.candLog {
 				if line == "nil" {
@@ -794,6 +832,8 @@ func c19gather(c *runCtx) (int, []c19gp) {
 						base = ra.Address
 					}
 					gotSrflx[cd.Address()+" base "+base]++
+				case CandidateTypeRelay:
+					gotRelay[cd.Address()] = 1
 				default:
 				}
 			}
@@ -811,6 +851,9 @@ func c19gather(c *runCtx) (int, []c19gp) {
 			if gotSrflx["0.0.0.0 base 0.0.0.0"] > 0 && wantSrflx["0.0.0.0 base 0.0.0.0"] == 0 {
 				msgs = append(msgs, "S29:a server-reflexive candidate with the unspecified address 0.0.0.0 is published: no server-reflexive rule matches the wildcard socket of the mapped gatherer (or an append rule matched without externals), and its own address is advertised instead of nothing")
 				delete(gotSrflx, "0.0.0.0 base 0.0.0.0")
+			}
+			if fmt.Sprint(gotRelay) != fmt.Sprint(wantRelay) {
+				msgs = append(msgs, fmt.Sprintf("relay candidates published %v, the rules give %v", gotRelay, wantRelay))
 			}
 			if fmt.Sprint(gotSrflx) != fmt.Sprint(wantSrflx) {
 				msgs = append(msgs, fmt.Sprintf("mapped server-reflexive candidates published %v, the rules give %v", gotSrflx, wantSrflx))
